@@ -292,3 +292,123 @@ Proof.
 Qed.
 
 End Assemble.
+
+(* ------------------------------------------------------------------ (2) rows = the parent's leaves, types = the child above *)
+Section Rows.
+Variable A : Type.
+
+Lemma immediate_children_inv t parent kids : validate t = true ->
+  immediate_children t parent = ROk kids ->
+  (child_level_of parent < length t)%nat /\ kids = zsort (children t parent) /\
+  (forall li x, parent = Some (li, x) -> In x (nodes (nth li t []))).
+Proof.
+  intros V. destruct (validate_sound t V) as (NE & _). destruct parent as [[li x]|]; cbn.
+  - destruct (length t <=? li)%nat eqn:E1; [discriminate|].
+    destruct (zmem x (nodes (nth li t []))) eqn:E2; cbn [negb]; [|discriminate].
+    destruct (length t <=? S li)%nat eqn:E3; [discriminate|].
+    intros H. injection H as <-. apply Nat.leb_gt in E3. split; [exact E3|]. split; [reflexivity|].
+    intros li' x' E. injection E as <- <-. apply zmem_in. exact E2.
+  - intros H. injection H as <-. split; [destruct t; [congruence | cbn; lia]|]. split; [reflexivity|].
+    intros li x E. discriminate.
+Qed.
+
+Theorem reference_rows t groups refg qg qgenes qnorm (m : rmat A) parent a :
+  validate t = true -> wf t ->
+  assemble_reference A t groups refg qg qgenes qnorm m parent = ROk a ->
+  (child_level_of parent < length t)%nat /\
+  Sorted Z.le (m_cells (a_ref a)) /\ NoDup (m_cells (a_ref a)) /\
+  (forall l, In l (m_cells (a_ref a)) <->
+     exists c, In c (children t parent) /\
+               ancestor_at t (length t - 1) l (child_level_of parent) = Some c) /\
+  (forall li x, parent = Some (li, x) ->
+     forall l, In l (m_cells (a_ref a)) <-> ancestor_at t (length t - 1) l li = Some x) /\
+  (parent = None -> forall l, In l (m_cells (a_ref a)) <-> In l (nodes (leaf_level t))) /\
+  length (a_types a) = length (m_cells (a_ref a)) /\
+  length (m_data (a_ref a)) = length (m_cells (a_ref a)) /\
+  (forall i l, nth_error (m_cells (a_ref a)) i = Some l ->
+     exists c, nth_error (a_types a) i = Some c /\ In c (children t parent) /\
+               ancestor_at t (length t - 1) l (child_level_of parent) = Some c).
+Proof.
+  intros V W H.
+  destruct (assemble_inv A _ _ _ _ _ _ _ _ _ H)
+    as (kids & asg & ri & qi & Ek & Ea & _ & _ & _ & _ & _ & _ & Ec & Ft & _ & _ & _ & Fd).
+  destruct (immediate_children_inv t parent kids V Ek) as (Hcl & -> & Hx).
+  destruct (sorted_keys_spec asg) as (S1 & S2 & S3).
+  pose proof (leaf_assignments_in t _ _ asg Ea) as Hasg.
+  assert (Hkey : forall l c, In (l, c) asg <->
+            In c (children t parent) /\ ancestor_at t (length t - 1) l (child_level_of parent) = Some c).
+  { intros l c. rewrite Hasg, zsort_in. rewrite (leaves_of_ancestor t V W _ c l Hcl). tauto. }
+  assert (Hmem : forall l, In l (m_cells (a_ref a)) <->
+            exists c, In c (children t parent) /\
+                      ancestor_at t (length t - 1) l (child_level_of parent) = Some c).
+  { intros l. rewrite Ec, S3. split; intros (c & Hc); exists c; apply Hkey; exact Hc. }
+  destruct (leaves_partition_thm t V W) as (P1 & _ & _ & _ & P5 & _).
+  split; [exact Hcl|]. split; [rewrite Ec; exact S1|]. split; [rewrite Ec; exact S2|].
+  split; [exact Hmem|]. split; [|split; [|split; [|split]]].
+  - intros li x -> l. cbn [child_level_of] in *. rewrite Ec, S3.
+    rewrite <- (leaves_of_ancestor t V W li x l) by lia.
+    split.
+    + intros (c & Hc). apply Hasg in Hc. destruct Hc as (Hc & Hl). apply (proj1 (zsort_in _ _)) in Hc. cbn [children] in Hc.
+      apply (Permutation_in _ (Permutation_sym (P1 li x Hcl))). apply in_flat_map. exists c. split; [exact Hc | exact Hl].
+    + intros Hl. apply (Permutation_in _ (P1 li x Hcl)) in Hl. apply in_flat_map in Hl.
+      destruct Hl as (c & Hc & Hl). exists c. apply Hasg. split; [apply zsort_in; exact Hc | exact Hl].
+  - intros -> l. cbn [child_level_of children] in *. rewrite Ec, S3.
+    assert (E0 : nth 0 t [] = hd [] t) by (destruct t; reflexivity).
+    split.
+    + intros (c & Hc). apply Hasg in Hc. destruct Hc as (Hc & Hl). apply (proj1 (zsort_in _ _)) in Hc.
+      apply (Permutation_in _ (P5 0%nat Hcl)). apply in_flat_map. exists c. rewrite E0. tauto.
+    + intros Hl. apply (Permutation_in _ (Permutation_sym (P5 0%nat Hcl))) in Hl. apply in_flat_map in Hl.
+      destruct Hl as (c & Hc & Hl). rewrite E0 in Hc. exists c. apply Hasg.
+      split; [apply zsort_in; exact Hc | exact Hl].
+  - symmetry. apply (Forall2_length _ _ _ Ft).
+  - symmetry. apply (Forall2_length _ _ _ Fd).
+  - intros i l Hi. destruct (Forall2_nth_l _ _ _ _ _ Ft Hi) as (c & Hc & Ht).
+    exists c. split; [exact Hc|]. apply Hkey. apply type_of_leaf_in. exact Ht.
+Qed.
+
+(* (3) column j of reference_data is the column of the reference matrix NAMED all_ref_identifiers[reference_markers[j]] *)
+Theorem reference_columns t groups refg qg qgenes qnorm (m : rmat A) parent a :
+  assemble_reference A t groups refg qg qgenes qnorm m parent = ROk a ->
+  exists ri qi, tget parent groups = Some (ri, qi) /\
+    names_at refg ri = Some (m_genes (a_ref a)) /\ names_at qg qi = Some (a_qgenes a) /\
+    a_qgenes a = m_genes (a_ref a) /\ NoDup (m_genes (a_ref a)) /\
+    m_norm (a_ref a) = Log2CPM /\
+    forall i j l r, nth_error (m_cells (a_ref a)) i = Some l -> nth_error ri j = Some r ->
+      exists g row v, nth_error refg r = Some g /\ nth_error (m_genes (a_ref a)) j = Some g /\
+        nth_error (m_data (a_ref a)) i = Some row /\ nth_error row j = Some v /\
+        mat_at A m l g = Some v.
+Proof.
+  intros H.
+  destruct (assemble_inv A _ _ _ _ _ _ _ _ _ H)
+    as (kids & asg & ri & qi & _ & _ & Eg & Eq & Er & Eqr & ND & _ & _ & _ & En & _ & _ & Fd).
+  exists ri, qi. repeat (split; [assumption|]).
+  intros i j l r Hi Hj. pose proof (names_at_inv _ _ _ Er) as Fn.
+  destruct (Forall2_nth_l _ _ _ _ _ Fn Hj) as (g & Hg & Hr).
+  destruct (Forall2_nth_l _ _ _ _ _ Fd Hi) as (row & Hrow & rowm & Hm & Fl).
+  destruct (Forall2_nth_l _ _ _ _ _ Fl Hg) as (v & Hv & Hl).
+  exists g, row, v. repeat (split; [assumption|]). rewrite mat_at_mat_row, Hm. exact Hl.
+Qed.
+
+(* (4) a profile equal to the mean profile of leaf L, by name on the marker genes, IS row index-of-L *)
+Theorem centroid_is_a_reference_row t groups refg qg qgenes qnorm (m : rmat A) parent a L (q : list A) :
+  validate t = true -> wf t ->
+  assemble_reference A t groups refg qg qgenes qnorm m parent = ROk a ->
+  In L (m_cells (a_ref a)) ->
+  Forall2 (fun g v => mat_at A m L g = Some v) (m_genes (a_ref a)) q ->
+  exists i c, nth_error (m_cells (a_ref a)) i = Some L /\ nth_error (m_data (a_ref a)) i = Some q /\
+              nth_error (a_types a) i = Some c /\ In c (children t parent) /\
+              ancestor_at t (length t - 1) L (child_level_of parent) = Some c.
+Proof.
+  intros V W H HL Hq.
+  destruct (reference_rows t _ _ _ _ _ _ _ _ V W H) as (_ & _ & _ & _ & _ & _ & _ & _ & Ht).
+  destruct (assemble_inv A _ _ _ _ _ _ _ _ _ H)
+    as (_ & _ & _ & _ & _ & _ & _ & _ & _ & _ & _ & _ & _ & _ & _ & _ & _ & Fd).
+  destruct (In_nth_error _ _ HL) as [i Hi].
+  destruct (Ht i L Hi) as (c & Hc & Hin & Hanc).
+  destruct (Forall2_nth_l _ _ _ _ _ Fd Hi) as (row & Hrow & rowm & Hm & Fl).
+  exists i, c. split; [exact Hi|]. split; [|tauto].
+  rewrite Hrow. f_equal. apply (lookup_rows_eq A (m_genes m) rowm (m_genes (a_ref a))); [exact Fl|].
+  eapply Forall2_weaken; [|exact Hq]. intros g v Hg. cbn beta in Hg. rewrite mat_at_mat_row, Hm in Hg. exact Hg.
+Qed.
+
+End Rows.
